@@ -973,17 +973,36 @@ func c20Dedup(r *fw.R, list []int) {
 	if len(order) < len(list) {
 		r.Nontrivial()
 	}
-	for mode := 0; mode < 2; mode++ {
+	for mode := 0; mode < 5; mode++ {
 		in := make([]dns.RR, len(list))
+		shared := map[int]dns.RR{}
 		for i, idx := range list {
 			in[i] = c20Pool(idx)
+			if mode == 4 { // the same record value at every position that names the same pool entry
+				if x, ok := shared[idx]; ok {
+					in[i] = x
+				} else {
+					shared[idx] = in[i]
+				}
+			}
 		}
 		orig := append([]dns.RR(nil), in...)
 		var m map[string]dns.RR
 		mname := "nil map"
-		if mode == 1 {
+		switch mode {
+		case 1:
 			m = make(map[string]dns.RR, 8)
 			mname = "pre-allocated map"
+		case 2:
+			m = make(map[string]dns.RR)
+			dns.Dedup([]dns.RR{c20Pool(8), c20Pool(9)}, m)
+			mname = "the map of an earlier Dedup call on a list without duplicates"
+		case 3:
+			m = make(map[string]dns.RR)
+			dns.Dedup([]dns.RR{c20Pool(0), c20Pool(9), c20Pool(1)}, m)
+			mname = "the map of an earlier Dedup call on a list with duplicates"
+		case 4:
+			mname = "nil map, equal pool entries are the same record value"
 		}
 		out := dns.Dedup(in, m)
 		r.Count("Dedup calls", 1)
@@ -1094,7 +1113,7 @@ func c20Spaces(c *fw.Ctx) {
 		maxLen = 6
 	}
 	pool := len(c20PoolGroup)
-	c.Space("dedup", fmt.Sprintf("all lists of length ≤ %d over a pool of %d records (2 groups, differing only in the letter case of the name inside the RDATA, × TTL {5,9} × owner {lower,upper}; a TXT at the same owner; the first group's MX at another owner), every position a fresh record, each list with a nil map and with a fresh pre-allocated map; expected: first record of each group in input order, same pointer, smallest TTL of the group, otherwise unchanged; one case per 2-element prefix; non-trivial: some group occurs twice", maxLen, pool), true,
+	c.Space("dedup", fmt.Sprintf("all lists of length ≤ %d over a pool of %d records (2 groups, differing only in the letter case of the name inside the RDATA, × TTL {5,9} × owner {lower,upper}; a TXT at the same owner; the first group's MX at another owner), every position a fresh record (and once with equal entries being the same record value), each list with a nil map, a fresh pre-allocated map, and a map that an earlier Dedup call (on a list without / with duplicates) has used; expected: first record of each group in input order, same pointer, smallest TTL of the group, otherwise unchanged; one case per 2-element prefix; non-trivial: some group occurs twice", maxLen, pool), true,
 		func(emit func(func(*fw.R))) {
 			emit(func(r *fw.R) {
 				// the pool's groups by construction are the statement's groups by text
